@@ -1266,3 +1266,193 @@ def c01_narrow_big(ctx, exe, items):
                  {"line": lines[i][:20000], "stderr": err, "stream": "narrow-fields-16bit"})
     ctx.count("narrow-fields-16bit(faults only)", len(lines), len(set(lines)),
               sample={"stream": "narrow-fields-16bit", "input": lines[0][:200] if lines else "", "impl": impl[0][:100] if lines else ""})
+
+
+# =================================================================================================
+# C04, round g — ARITHMETIC on Natural operands whose exact result lies in [2^63, 2^64) or just beside the edges
+# (seeded/C04-g2: Natural - Natural tagged the difference as signed whenever its top bit was set).  Deterministic
+# stream U + exact integer oracle on all entry points ({math:} must print the unsigned decimal).
+
+# `%` reads BOTH operands through the signed member (QExpression::operator%, Template.hpp case Remainder), so a Natural
+# >= 2^63 as dividend or divisor gives a wrong remainder on the unchanged tree (18446744073709551615 % 10 = -1).  Those
+# results are recorded, not judged, until the tree is repaired (notes/fix-expr-natural-above-int63-remainder.diff) or the
+# class is recorded as a finding; C04_NAT63_REM_JUDGED=1 judges them (key natural-above-int63-remainder).
+NAT63_REM_JUDGED = _os.environ.get("C04_NAT63_REM_JUDGED", "0") == "1"
+
+
+def _pow_targets():
+    out = []
+    for a in list(range(2, 200)) + [255, 256, 1000, 4096, 65535, 65536, 2097152, 3037000499, 3037000500, 4294967295, 4294967296]:
+        b, p = 1, a
+        while p < P64:
+            if b >= 2 and (P62 <= p):
+                out.append((a, b, p))
+            b += 1
+            p *= a
+    # keep everything in [2^63, 2^64) and a few just below 2^63
+    hi = [t for t in out if t[2] >= P63]
+    lo = sorted([t for t in out if t[2] < P63], key=lambda t: -t[2])[:8]
+    return hi + lo
+
+
+def c04_unsigned_arith(gen):
+    """stream U.  Fills gen.uarith: (text, vars) -> (kind n/i/r, value, class).  Returns the number of expressions."""
+    rng = gen.rng
+    gen.uarith = {}
+    n0 = len(gen.exprs)
+    edges = [P63 - 2, P63 - 1, P63, P63 + 1, P63 + 2, 10 ** 19, P64 - 16, P64 - 2, P64 - 1]
+    targets = edges + [rng.randrange(P63, P64) for _ in range(6)] + [rng.randrange(P62, P63) for _ in range(2)]
+    rot = [0]
+
+    def nat(v, side):
+        """a Natural operand holding v: literal, unsigned variable or computed"""
+        ps = _producers(v, side)["n"]
+        rot[0] += 1
+        return ps[rot[0] % len(ps)]
+
+    def put(text, vs, kind, value, cls="arith"):
+        gen.add_raw("U", text, vs)
+        gen.uarith.setdefault((text, vs), (kind, value, cls))
+
+    def contexts(text, vs, kind, value, cls):
+        """the operation alone and as a sub-expression of further arithmetic / a comparison"""
+        put(text, vs, kind, value, cls)
+        k = rot[0] % 6
+        if kind == "n":
+            if k == 0:
+                put("(%s) + 0" % text, vs, "n", value, cls)
+            elif k == 1 and value >= 1:
+                put("(%s) - 1" % text, vs, "n", value - 1, cls)
+            elif k == 2:
+                put("1 * (%s)" % text, vs, "n", value, cls)
+            elif k == 3:
+                put("(%s) / 2" % text, vs, "r", float(value) / 2.0, cls)
+            elif k == 4 and value + 1 < P64:
+                put("(%s) + 1" % text, vs, "n", value + 1, cls)
+            else:
+                put("(%s) / 2 > 1" % text, vs, "n", int(float(value) / 2.0 > 1.0), cls)
+            if value >= P63 and rot[0] % 5 == 0:
+                # a comparison of the huge Natural result with a small Natural: the recorded class natural-above-int63-compare
+                put("(%s) > 1" % text, vs, "n", 1, "nat63-compare" if cls == "arith" else cls)
+
+    for r in targets:
+        # ---- a - b = r (no borrow)
+        for b in (0, 1, 5, 15, P62, P63 - 1, P63, rng.randrange(1, P63)):
+            a = r + b
+            if a < P64:
+                (ta, va), (tb, vb) = nat(a, "a"), nat(b, "b")
+                contexts("%s - %s" % (ta, tb), _vars(va, vb), "n", r, "arith")
+        # ---- a + b = r
+        for a in (r, r - 1, P63 - 1, r // 2, rng.randrange(0, r + 1)):
+            b = r - a
+            if 0 <= a and 0 <= b:
+                (ta, va), (tb, vb) = nat(a, "a"), nat(b, "b")
+                contexts("%s + %s" % (ta, tb), _vars(va, vb), "n", r, "arith")
+        # ---- a * b close to r
+        for b in (1, 2, 3, 5, 7, 10, 1 << 31, (1 << 32) - 1, 1 << 32, 3037000500):
+            a = r // b
+            if a >= 1 and a * b >= P62:
+                (ta, va), (tb, vb) = nat(a, "a"), nat(b, "b")
+                contexts("%s * %s" % (ta, tb), _vars(va, vb), "n", a * b, "arith")
+        # ---- a | b = r, a & b = r
+        if r >= P63:
+            low = r - P63
+            (ta, va), (tb, vb) = nat(P63, "a"), nat(low, "b")
+            contexts("%s | %s" % (ta, tb), _vars(va, vb), "n", r, "arith")
+            (ta, va), (tb, vb) = nat(r, "a"), nat(P64 - 1, "b")
+            contexts("%s & %s" % (ta, tb), _vars(va, vb), "n", r, "arith")
+            (ta, va), (tb, vb) = nat(r | 0x5555, "a"), nat(r | 0xAAAA, "b")
+            contexts("%s & %s" % (ta, tb), _vars(va, vb), "n", (r | 0x5555) & (r | 0xAAAA), "arith")
+        # ---- a / b: real division, both operands promoted to the nearest double
+        for b in (1, 2, 3, 1000, P63, P64 - 1):
+            (ta, va), (tb, vb) = nat(r, "a"), nat(b, "b")
+            put("%s / %s" % (ta, tb), _vars(va, vb), "r", float(r) / float(b), "arith")
+        # ---- a % b with a huge operand (dividend and / or divisor)
+        for b in (10, 7, 1 << 32, P63 - 1, P63, P63 + 1, P64 - 1):
+            (ta, va), (tb, vb) = nat(r, "a"), nat(b, "b")
+            cls = "rem63" if (r >= P63 or b >= P63) else "arith"
+            # kind "m": the remainder is always tagged Integer by the code (same value, same text); either integral tag is accepted
+            put("%s %% %s" % (ta, tb), _vars(va, vb), "m", r % b, cls)
+            if b >= P63:
+                (tc, vc) = nat(12345, "a")
+                put("%s %% %s" % (tc, tb), _vars(vc, vb), "m", 12345 % b, "rem63")
+        # ---- Natural next to a Real: promotion to the nearest double
+        for (op, f) in (("+", lambda x, y: x + y), ("-", lambda x, y: x - y), ("*", lambda x, y: x * y)):
+            (ta, va) = nat(r, "a")
+            put("%s %s 0.5" % (ta, op), va and _vars(va) or "-", "r", f(float(r), 0.5), "arith")
+            put("{var:b} %s %s" % (op, ta), _vars(va, {"b": _r(2.0)}), "r", f(2.0, float(r)), "arith")
+    # ---- borrow just beside the edges: the difference is negative and fits the signed range
+    for a, b in ((P63, P63 + 1), (P63 - 1, P63), (P64 - 2, P64 - 1), (0, P63 - 1), (1, P63), (5, P63 + 4), (P63 + 7, P64 - 1), (P62, P63 + P62 - 1)):
+        (ta, va), (tb, vb) = nat(a, "a"), nat(b, "b")
+        if -(P63) <= a - b < 0:
+            contexts("%s - %s" % (ta, tb), _vars(va, vb), "i", a - b, "arith")
+    # ---- a ^ b in [2^63, 2^64) and just below 2^63
+    for a, b, p in _pow_targets():
+        (ta, va), (tb, vb) = nat(a, "a"), nat(b, "b")
+        contexts("%s ^ %s" % (ta, tb), _vars(va, vb), "n", p, "arith")
+    # ---- chains staying unsigned: (2^64-1) - x - y, sums of three, product minus one
+    for x, y in ((1, 1), (P62, P62), (P63 - 1, 1), (15, P62)):
+        (ta, va) = nat(P64 - 1, "a")
+        put("%s - %d - %d" % (ta, x, y), _vars(va), "n", P64 - 1 - x - y)
+        put("%d + %d + %s" % (x, y, nat(P63, "b")[0].replace("{var:b}", "9223372036854775808")), "-", "n", x + y + P63) if x + y + P63 < P64 else None
+    put("4294967296 * 4294967295 + 4294967295", "-", "n", (1 << 32) * ((1 << 32) - 1) + (1 << 32) - 1)
+    put("3037000500 * 3037000500 - 1", "-", "n", 3037000500 ** 2 - 1)
+    put("(18446744073709551615 - 15) / 2 > 1", "-", "n", 1)
+    return len(gen.exprs) - n0
+
+
+def c04_unsigned_arith_oracle(ctx, exe, gen, exprs, meta, lines, impl, units_of):
+    """exact oracle for stream U on {math:} (unsigned / signed decimal, the formatter's text for a Real), <if case>, the inline
+    if (truth = value > 0) and ParseExpressions+Evaluate (kind, 64-bit payload, truth)."""
+    ua = getattr(gen, "uarith", {})
+    idx = [k for k, e in enumerate(exprs) if e["stream"] == "U" and (e["text"], e["vars"]) in ua]
+    qlines = ["expeval q %s %s" % (exprs[k]["vars"], units_of(exprs[k]["text"])) for k in idx]
+    hexes = sorted({_r(v)[1:] for (kind, v, _) in ua.values() if kind == "r"})
+    out, faults = _par(exe, qlines + ["expfmt " + h for h in hexes])
+    for i, kind, err in faults:
+        ctx.fail("fault:" + kind, "sanitizer fault on unsigned arithmetic near 2^63 / 2^64: " + (qlines + hexes)[i][:200], {"line": (qlines + hexes)[i][:2000], "stderr": err})
+    qout, fmt = out[:len(qlines)], dict(zip(hexes, out[len(qlines):]))
+    results = [(lines[i], impl[i], exprs[k], mode) for i, (k, mode) in enumerate(meta) if exprs[k]["stream"] == "U"]
+    results += [(qlines[j], qout[j], exprs[k], "q") for j, k in enumerate(idx)]
+    n, nbad, per_cls, obs, obs_wrong = 0, 0, {}, 0, []
+    for line, o, e, mode in results:
+        info = ua.get((e["text"], e["vars"]))
+        if info is None or o.startswith("FAULT"):
+            continue
+        kind, v, cls = info
+        truth = 1 if v > 0 else 0
+        if mode == "p" and kind == "m":
+            want = o if o in ("V n %d %d" % (v, truth), "V i %d %d" % (v, truth)) and v < P63 else "V n %d %d" % (v, truth)
+        elif mode == "p":
+            want = "V n %d %d" % (v, truth) if kind == "n" else "V i %d %d" % (v % P64, truth) if kind == "i" else "V r %s %d" % (_r(v)[1:], truth)
+        elif mode == "m":
+            if kind == "r":
+                f = fmt.get(_r(v)[1:], "")
+                if not f.startswith("X "):
+                    continue
+                want = "M " + f[2:]
+            else:
+                want = "M " + units_of(str(v))
+        else:
+            want = "%s %d" % ("I" if mode == "i" else "Q", 84 if truth else 70)
+        if cls == "rem63" and not NAT63_REM_JUDGED:
+            obs += 1
+            if o != want and mode == "p" and len(obs_wrong) < 6:
+                obs_wrong.append("%s [%s] -> %s (exact: %d)" % (e["text"], e["vars"], o, v))
+            continue
+        n += 1
+        per_cls[cls] = per_cls.get(cls, 0) + 1
+        if o != want:
+            nbad += 1
+            if nbad <= 300:
+                key = {"arith": "oracle:unsigned-arith", "nat63-compare": "natural-above-int63-compare", "rem63": "natural-above-int63-remainder"}[cls]
+                shown = o if mode == "p" else repr(line_text(o[2:]))
+                ctx.fail(key, "arithmetic on unsigned operands with an exact result near 2^63 / 2^64 differs from exact arithmetic (%s, class %s): %r (vars %s) -> %s, expected %s" % (
+                    {"p": "Evaluate", "m": "{math:}", "i": "<if case>", "q": "inline if"}[mode], cls, e["text"], e["vars"], shown,
+                    want if mode == "p" else repr(line_text(want[2:]))),
+                    {"line": line, "text": e["text"], "vars": e["vars"], "mode": mode, "impl_output": o, "expected": want, "class": cls})
+    ctx.count("S3-unsigned-arith (U stream: - + * / % ^ | & with exact results in [2^63, 2^64) and beside the edges, four entry points)", n, n,
+              sample={"stream": "S3-unsigned-arith", "cases": n, "failures": nbad, "per class": per_cls})
+    ctx.notes.append("stream U: %d judged results (%s), %d failures; %d results of %% with a Natural operand >= 2^63 are observed only (operator%% reads both operands "
+                     "through the signed member); examples where the code differs from exact arithmetic: %s" % (
+                         n, ", ".join("%s:%d" % kv for kv in sorted(per_cls.items())), nbad, obs, "; ".join(obs_wrong) or "none"))
